@@ -1178,7 +1178,7 @@ pub fn main(ctx: &Ctx) {
     campaign(
         ctx,
         Campaign {
-            total_cases: ctx.pick(1_500, 20_000),
+            total_cases: ctx.pick(1_500, 16_000),
             max_shrink_iters: 200,
             limits: Limits { cpu_s: 30, wall_s: 120, as_bytes: 4 << 30 },
             meta: Meta {
